@@ -58,6 +58,12 @@ pub struct DirScript {
     /// instead of forwarding, send this direction's bytes back to their sender
     #[serde(default)]
     pub reflect: bool,
+    /// WebSocket carrier: understand the framing. After the HTTP upgrade the binary messages of this direction are
+    /// taken apart and their payload stream is re-framed: 1 = every message is additionally cut at `cuts` (offsets in
+    /// the payload stream; a protocol frame then straddles two messages), 2 = one message per payload byte,
+    /// 3 = consecutive messages are merged into one (flushed when the sender goes quiet for `gap_ms`)
+    #[serde(default)]
+    pub ws_mode: u8,
 }
 
 impl DirScript {
@@ -80,6 +86,13 @@ pub struct ProxyObs {
     pub cut_ns: Vec<u64>,
     /// connection ids (client side, server side) of every proxied connection that is still being forwarded
     pub live: Vec<(usize, usize)>,
+    /// WebSocket-aware forwarding: payload bytes of the data messages seen per direction (first connection), and the
+    /// payload offsets at which the sender's own messages ended
+    pub ws_payload_c2s: Vec<u8>,
+    pub ws_payload_s2c: Vec<u8>,
+    pub ws_bounds_c2s: Vec<u64>,
+    pub ws_bounds_s2c: Vec<u64>,
+    pub ws_messages_out: u64,
 }
 
 pub fn proxy_addr() -> SocketAddr {
@@ -230,6 +243,206 @@ where
     }
 }
 
+fn ws_frame(payload: &[u8], opcode: u8, masked: bool, key_seed: u64) -> Vec<u8> {
+    let mut f = vec![0x80 | opcode];
+    let m = if masked { 0x80 } else { 0 };
+    if payload.len() < 126 {
+        f.push(m | payload.len() as u8);
+    } else if payload.len() <= 0xffff {
+        f.push(m | 126);
+        f.extend_from_slice(&(payload.len() as u16).to_be_bytes());
+    } else {
+        f.push(m | 127);
+        f.extend_from_slice(&(payload.len() as u64).to_be_bytes());
+    }
+    if masked {
+        let k = (key_seed.wrapping_mul(0x9E3779B97F4A7C15) >> 16) as u32 | 1;
+        let key = k.to_be_bytes();
+        f.extend_from_slice(&key);
+        f.extend(payload.iter().enumerate().map(|(i, b)| b ^ key[i % 4]));
+    } else {
+        f.extend_from_slice(payload);
+    }
+    f
+}
+
+/// one complete frame at the start of `buf`: (total length, opcode, fin, unmasked payload)
+fn ws_parse(buf: &[u8]) -> Option<(usize, u8, bool, Vec<u8>)> {
+    if buf.len() < 2 {
+        return None;
+    }
+    let fin = buf[0] & 0x80 != 0;
+    let opcode = buf[0] & 0x0f;
+    let masked = buf[1] & 0x80 != 0;
+    let (len, mut at) = match buf[1] & 0x7f {
+        126 => {
+            if buf.len() < 4 {
+                return None;
+            }
+            (u16::from_be_bytes([buf[2], buf[3]]) as usize, 4)
+        }
+        127 => {
+            if buf.len() < 10 {
+                return None;
+            }
+            (u64::from_be_bytes(buf[2..10].try_into().unwrap()) as usize, 10)
+        }
+        n => (n as usize, 2),
+    };
+    let mut key = [0u8; 4];
+    if masked {
+        if buf.len() < at + 4 {
+            return None;
+        }
+        key.copy_from_slice(&buf[at..at + 4]);
+        at += 4;
+    }
+    if buf.len() < at + len {
+        return None;
+    }
+    let payload: Vec<u8> = buf[at..at + len].iter().enumerate().map(|(i, b)| if masked { b ^ key[i % 4] } else { *b }).collect();
+    Some((at + len, opcode, fin, payload))
+}
+
+/// Byte ranges [from, to) of `stream` (one direction of a WebSocket connection, upgrade included) that are payload of
+/// data frames - the only bytes of that stream the carried protocol authenticates.
+pub fn ws_payload_ranges(stream: &[u8]) -> Vec<(u64, u64)> {
+    let mut out = Vec::new();
+    let Some(p) = stream.windows(4).position(|w| w == b"\r\n\r\n") else { return out };
+    let mut at = p + 4;
+    while let Some((used, opcode, _fin, payload)) = ws_parse(&stream[at..]) {
+        if opcode <= 2 {
+            out.push(((at + used - payload.len()) as u64, (at + used) as u64));
+        }
+        at += used;
+    }
+    out
+}
+
+/// WebSocket-aware pump: forwards the HTTP upgrade untouched, then re-frames the payload stream of the binary
+/// messages as `script.ws_mode` says. Control frames are forwarded as they are (after everything held back).
+async fn pump_ws<R, W>(mut rd: R, mut wr: W, script: DirScript, rec: Arc<Mutex<ProxyObs>>, conn: usize, is_c2s: bool) -> u8
+where
+    R: tokio::io::AsyncRead + Unpin,
+    W: tokio::io::AsyncWrite + Unpin,
+{
+    let mut buf = vec![0u8; 65536];
+    let mut inb: Vec<u8> = Vec::new();
+    let mut http_done = false;
+    let mut off = 0u64; // payload-stream offset of the next payload byte
+    let mut held: Vec<u8> = Vec::new(); // ws_mode 3: payload waiting to be merged with what follows
+    let gap = Duration::from_millis(script.gap_ms.max(1));
+    loop {
+        let n = if script.ws_mode == 3 && !held.is_empty() {
+            // merge mode: flush when the sender goes quiet
+            match tokio::time::timeout(gap, rd.read(&mut buf)).await {
+                Err(_) => {
+                    let f = ws_frame(&held, 2, is_c2s, off);
+                    held.clear();
+                    if wr.write_all(&f).await.is_err() {
+                        return 2;
+                    }
+                    rec.lock().unwrap().ws_messages_out += 1;
+                    continue;
+                }
+                Ok(r) => r,
+            }
+        } else {
+            rd.read(&mut buf).await
+        };
+        let n = match n {
+            Ok(0) => {
+                if !held.is_empty() {
+                    let _ = wr.write_all(&ws_frame(&held, 2, is_c2s, off)).await;
+                }
+                let _ = wr.shutdown().await;
+                return 1;
+            }
+            Ok(n) => n,
+            Err(_) => return 2,
+        };
+        {
+            let mut o = rec.lock().unwrap();
+            let v = if is_c2s { &mut o.c2s } else { &mut o.s2c };
+            v[conn].extend_from_slice(&buf[..n]);
+        }
+        inb.extend_from_slice(&buf[..n]);
+        if !http_done {
+            let Some(p) = inb.windows(4).position(|w| w == b"\r\n\r\n") else { continue };
+            let head: Vec<u8> = inb.drain(..p + 4).collect();
+            if wr.write_all(&head).await.is_err() {
+                return 2;
+            }
+            http_done = true;
+        }
+        while let Some((used, opcode, fin, payload)) = ws_parse(&inb) {
+            let raw: Vec<u8> = inb.drain(..used).collect();
+            if opcode != 2 || !fin {
+                // control frame (or a fragment, which the code under test never produces): as it is, after what was held
+                if !held.is_empty() {
+                    let f = ws_frame(&held, 2, is_c2s, off);
+                    held.clear();
+                    if wr.write_all(&f).await.is_err() {
+                        return 2;
+                    }
+                }
+                if wr.write_all(&raw).await.is_err() {
+                    return 2;
+                }
+                continue;
+            }
+            let start = off;
+            off += payload.len() as u64;
+            if conn == 0 {
+                let mut o = rec.lock().unwrap();
+                if is_c2s {
+                    o.ws_payload_c2s.extend_from_slice(&payload);
+                    o.ws_bounds_c2s.push(off);
+                } else {
+                    o.ws_payload_s2c.extend_from_slice(&payload);
+                    o.ws_bounds_s2c.push(off);
+                }
+            }
+            match script.ws_mode {
+                3 => held.extend_from_slice(&payload),
+                mode => {
+                    let mut pieces: Vec<&[u8]> = Vec::new();
+                    if mode == 2 {
+                        pieces.extend(payload.chunks(1));
+                    } else {
+                        let mut from = 0usize;
+                        for c in script.cuts.iter().filter(|c| **c > start && **c < off) {
+                            let k = (*c - start) as usize;
+                            if k > from {
+                                pieces.push(&payload[from..k]);
+                                from = k;
+                            }
+                        }
+                        pieces.push(&payload[from..]);
+                    }
+                    let many = pieces.len() > 1;
+                    let mut sent = start;
+                    for p in pieces {
+                        if wr.write_all(&ws_frame(p, 2, is_c2s, sent)).await.is_err() {
+                            return 2;
+                        }
+                        sent += p.len() as u64;
+                        rec.lock().unwrap().ws_messages_out += 1;
+                        if many {
+                            tokio::time::sleep(gap).await;
+                            if conn == 0 {
+                                let t = crate::nodes::now_ns();
+                                let mut o = rec.lock().unwrap();
+                                if is_c2s { o.fwd_log_c2s.push((t, sent)) } else { o.fwd_log_s2c.push((t, sent)) }
+                            }
+                        }
+                    }
+                }
+            }
+        }
+    }
+}
+
 /// Run the proxy until aborted. Every accepted connection gets the same pair of scripts.
 pub async fn run_proxy(c2s: DirScript, s2c: DirScript, obs: Arc<Mutex<ProxyObs>>) {
     let listener = TcpListener::bind(proxy_addr()).await.expect("proxy bind");
@@ -283,8 +496,9 @@ pub async fn run_proxy(c2s: DirScript, s2c: DirScript, obs: Arc<Mutex<ProxyObs>>
                 }
                 return;
             }
-            let mut a = crate::nodes::spawn_scoped(pump(ir, ow, c2s, obs.clone(), conn, true, None));
-            let mut b = crate::nodes::spawn_scoped(pump(or, iw, s2c, obs.clone(), conn, false, None));
+            let ws = c2s.ws_mode != 0 || s2c.ws_mode != 0;
+            let mut a = if ws { crate::nodes::spawn_scoped(pump_ws(ir, ow, c2s, obs.clone(), conn, true)) } else { crate::nodes::spawn_scoped(pump(ir, ow, c2s, obs.clone(), conn, true, None)) };
+            let mut b = if ws { crate::nodes::spawn_scoped(pump_ws(or, iw, s2c, obs.clone(), conn, false)) } else { crate::nodes::spawn_scoped(pump(or, iw, s2c, obs.clone(), conn, false, None)) };
             let first = tokio::select! {
                 r = &mut a.0 => (r, true),
                 r = &mut b.0 => (r, false),
